@@ -36,14 +36,14 @@ theorem SimpleOK.piece {cx : Cx} {items : List LItem} {trf : Nat → Src.B → S
 theorem op_simple (cx : Cx) (fuel : Nat) (n : String) (ps : List ESV.Param) (hn : nameOK n = true) (hnr : n ≠ Gen.op_return ∨ cx.cp.ret = none)
     {s : St} {items : List LItem} {s' : St}
     (h : opStmt n ps s = .ok (items, s')) (env : Src.Env) (he : EnvOK cx env) :
-    SimpleOK cx items (fun k b => Src.tr fuel [] env (.op n (convParams ps)) k b) ∧ SameStk s s' := by
+    SimpleOK cx items (fun k b => Src.tr fuel cx.sm env (.op n (convParams ps)) k b) ∧ SameStk s s' := by
   simp only [opStmt, bind_ok, pure_ok] at h
   obtain ⟨o, s1, h1, h2⟩ := h
   simp only [Prod.mk.injEq] at h2
   obtain ⟨rfl, rfl⟩ := h2
   obtain ⟨rfl, rfl⟩ := genOp_spec h1
   simp only [nameOK, Bool.and_eq_true, Bool.not_eq_true'] at hn
-  have htr : ∀ k b, Src.tr fuel [] env (.op n (convParams ps)) k b =
+  have htr : ∀ k b, Src.tr fuel cx.sm env (.op n (convParams ps)) k b =
       if Beh.endsFlow n then b.push (.halt (Src.substEv env.subst ⟨n, convParams ps⟩))
       else b.push (.emit (Src.substEv env.subst ⟨n, convParams ps⟩) k) := by
     intro k b; rw [Src.tr]
@@ -81,7 +81,7 @@ theorem op_simple (cx : Cx) (fuel : Nat) (n : String) (ps : List ESV.Param) (hn 
 theorem op_piece (cx : Cx) (fuel : Nat) (n : String) (ps : List ESV.Param) (hn : nameOK n = true) (hnr : n ≠ Gen.op_return ∨ cx.cp.ret = none)
     {s : St} {items : List LItem} {s' : St}
     (h : opStmt n ps s = .ok (items, s')) (env : Src.Env) (he : EnvOK cx env) :
-    PieceOK cx items s s' (fun k b => Src.tr fuel [] env (.op n (convParams ps)) k b) env := by
+    PieceOK cx items s s' (fun k b => Src.tr fuel cx.sm env (.op n (convParams ps)) k b) env := by
   obtain ⟨h1, h2⟩ := op_simple cx fuel n ps hn hnr h env he
   exact h1.piece h2 env
 
